@@ -356,6 +356,57 @@ def loop_driver(F, f, comp):
                             indefs = [d for d in f.defs_of(v) if d[0] in comp and not f.blocks[d[0]]["cleanup"]]
                             if indefs and all(decreasing(ex, d, v) for d in indefs):
                                 return "measure:%s strictly decreases" % f.names.get(v, "_%d" % v)
+    # counting loops: `while j < end { ..; j += c }` (c >= 1 a constant, the addition overflow-checked, `end` not assigned in the
+    # loop, every in-loop definition of j is that addition): end - j strictly decreases
+    for b in comp:
+        t = f.blocks[b]["term"]
+        if t["k"] != "switch" or not any(s_ not in comp for s_ in f.succ[b]):
+            continue
+        l = core.op_local(t["discr"])
+        ds = f.defs_of(l) if l is not None else []
+        if len(ds) != 1 or ds[0][1] == "term" or ds[0][2]["rv"]["k"] != "binop" or ds[0][2]["rv"]["op"] not in ("Lt", "Le", "Gt", "Ge", "Ne"):
+            continue
+        rv = ds[0][2]["rv"]
+        for ctr_side, bound_side, ops in ((rv["a"], rv["b"], ("Lt", "Le")), (rv["b"], rv["a"], ("Gt", "Ge"))):
+            if rv["op"] not in ops:
+                continue
+            ctr = root_local(f, ctr_side)
+            if ctr is None or ia.ty_range(f.locals[ctr]["ty"]) is None:
+                continue
+            bound_const = bound_side["k"] == "const"
+            broot = root_local(f, bound_side) if not bound_const else None
+            if not bound_const and (broot is None or [d for d in f.defs_of(broot) if d[0] in comp]):
+                continue
+            indefs = [d for d in f.defs_of(ctr) if d[0] in comp and not f.blocks[d[0]]["cleanup"]]
+            good = bool(indefs)
+            for d in indefs:
+                srcs = [ab for ab in comp if f.blocks[ab]["term"]["k"] == "assert" and f.blocks[ab]["term"]["msg"].get("kind") == "Overflow"
+                        and f.blocks[ab]["term"]["msg"].get("op") == "Add" and feeds_from(f, d, ab)]
+                if len(srcs) != 1:
+                    good = False
+                    break
+                m = f.blocks[srcs[0]]["term"]["msg"]
+                a_is = root_local(f, m["a"]) == ctr
+                other = m["b"] if a_is else m["a"]
+                cv = core.op_const_val(other)
+                if not (a_is or root_local(f, m["b"]) == ctr) or cv is None or cv < 1:
+                    good = False
+                    break
+            # the increment lies on every way round the loop through the test
+            if good:
+                incs = {d[0] for d in indefs}
+                seen, work, cyc = set(), [s_ for s_ in f.succ[b] if s_ in comp and s_ not in incs], False
+                while work:
+                    x = work.pop()
+                    if x == b:
+                        cyc = True
+                        break
+                    if x in seen:
+                        continue
+                    seen.add(x)
+                    work.extend(s_ for s_ in f.succ[x] if s_ in comp and s_ not in incs)
+                if not cyc:
+                    return "measure: bound - %s strictly decreases (counter incremented by a constant on every path round the loop)" % f.names.get(ctr, "_%d" % ctr)
     # growing-vector loops: `while v.len() < bound { .. v.push(..) .. }` with a loop-invariant bound and a push on every
     # path round the loop: bound - len strictly decreases
     for b in comp:
@@ -608,7 +659,9 @@ def range_len_index(F, an, sites):
         if own is None:
             continue
         v, path = own
-        if len([d for d in f.defs_of(v) if not f.blocks[d[0]]["cleanup"] and not (d[1] != "term" and d[2]["place"]["proj"])]) != 1:
+        ndefs = len([d for d in f.defs_of(v) if not f.blocks[d[0]]["cleanup"] and not (d[1] != "term" and d[2]["place"]["proj"])])
+        is_shared_param = 1 <= v <= f.arg_count and ndefs == 0 and f.locals[v]["ty"].get("k") == "ref" and not f.locals[v]["ty"].get("mut")
+        if ndefs != 1 and not is_shared_param:
             continue
         if [x for x in vector_escapes(f, v, path)] or any(
                 core.strip_generics(core.callee_path(t2) or "") in LEN_GROWING and flow.resolve_owner_path(f, t2["args"][0], want_mut=True) == own
@@ -638,8 +691,10 @@ def range_len_index(F, an, sites):
         if it is None:
             continue
         og = flow.origin(f, {"k": "copy", "place": {"local": it, "proj": []}})
-        if og[0] == "call" and core.strip_generics(core.callee_path(og[2]) or "").endswith("into_iter"):
-            og = flow.origin(f, og[2]["args"][0])
+        for _ in range(3):
+            # into_iter / rev keep the set of indices (the same range walked in either direction)
+            if og[0] == "call" and core.strip_generics(core.callee_path(og[2]) or "").rsplit("::", 1)[-1] in ("into_iter", "rev") and og[2]["args"]:
+                og = flow.origin(f, og[2]["args"][0])
         if og[0] != "local" or og[1] is None:
             continue
         ds = [d for d in f.defs_of(og[1]) if not f.blocks[d[0]]["cleanup"]]
